@@ -158,3 +158,33 @@ Proof.
   apply find_some in F. destruct F as [Hin E]. apply parent_eqb_eq in E. destruct e as [q v]. cbn in E. subst q.
   exfalso. apply (H v Hin).
 Qed.
+
+(* ------------------------------------------------------------------ thinning, with the precondition under which the model is tied *)
+Lemma NoDup_map_nth (l : list Z) (keep : list nat) d :
+  NoDup l -> NoDup keep -> (forall i, In i keep -> i < length l) -> NoDup (map (fun i => nth i l d) keep).
+Proof.
+  intros NL NK. induction NK as [|i r Hi _ IH]; intros Hlt; cbn; [constructor|].
+  constructor.
+  - intros H. apply in_map_iff in H. destruct H as (i' & E & Hi').
+    assert (i' = i).
+    { apply (proj1 (NoDup_nth l d) NL); [apply Hlt; right; exact Hi' | apply Hlt; left; reflexivity | exact E]. }
+    subst i'. contradiction.
+  - apply IH. intros x Hx. apply Hlt. right. exact Hx.
+Qed.
+
+Theorem thinning_sound_nodup rm query :
+  NoDup (rm_genes rm) ->
+  let keep := keep_idx rm query in
+  NoDup (rm_genes (thin_genes rm query)) /\
+  rm_genes (thin_genes rm query) = map (fun i => nth i (rm_genes rm) 0%Z) keep /\
+  (forall i, In i keep <-> i < length (rm_genes rm) /\ In (nth i (rm_genes rm) 0%Z) query) /\
+  length (rm_pairs (thin_genes rm query)) = length (rm_pairs rm) /\
+  forall k e, nth_error (rm_pairs rm) k = Some e ->
+    exists e', nth_error (rm_pairs (thin_genes rm query)) k = Some e' /\ fst e' = fst e /\
+      (forall j, In j (fst (snd e')) <-> exists i, nth_error keep j = Some i /\ In i (fst (snd e))) /\
+      (forall j, In j (snd (snd e')) <-> exists i, nth_error keep j = Some i /\ In i (snd (snd e))).
+Proof.
+  intros ND. cbv zeta. split; [|apply thinning_sound].
+  cbn [thin_genes rm_genes]. apply NoDup_map_nth; [exact ND | apply keep_idx_nodup|].
+  intros i Hi. apply keep_idx_spec in Hi. apply Hi.
+Qed.
